@@ -75,6 +75,8 @@ def run_shard(modname, tier, seed, n, shard, nshards, use_model):
     if shard == 0:
         for path in sorted(glob.glob(os.path.join(VERIF, "corpus", mod.PROP, "*.json"))):
             c = json.load(open(path))
+            if c.get("module") not in (None, modname):
+                continue
             one(mod, runner, stats, c["params"], c.get("chooser", "random"), c.get("cseed", 0),
                 "corpus:" + os.path.basename(path), known_patterns, use_model)
         if hasattr(mod, "directed"):
